@@ -80,6 +80,10 @@ def preds_of(case):
                     P.add("prog.self_recursive")
         if sum(1 for l in lits(c) if l["k"] == "pos" and l["r"] == c["h"]["r"]) >= 2:
             P.add("prog.nonlinear_recursion")
+        # a recursive clause that is more than the plain two-atom closure shape p <- p, e
+        if any(l["k"] == "pos" and l["r"] == c["h"]["r"] for l in lits(c)) and (
+                any(l["k"] in ("neg", "cmp") for l in lits(c)) or sum(1 for l in lits(c) if l["k"] == "pos") >= 3):
+            P.add("prog.recursive_clause_not_plain")
         for l in lits(c):
             if l["k"] == "cmp" and l["op"] == "=":
                 P.add("prog.cmp_eq")
